@@ -912,6 +912,15 @@ class NetRun:
             kind = op[0]
             if kind == "line":
                 self.op_line(op[1], op[2] if len(op) > 2 else "\n")
+            elif kind == "readonly_tick":
+                # the persistence directory is not writable while one scheduled save comes and goes
+                # (the library refuses that save without raising), then it is writable again
+                self.fs.readonly.add("/work")
+                self.faults["readonly_dir_at_tick"] = self.faults.get("readonly_dir_at_tick", 0) + 1
+                wait = (self.tick_times[-1] + 10.0 - world.sim.now) if self.tick_times else 10.1
+                world.advance(max(0.0, wait) + 0.5)
+                self.fs.readonly.discard("/work")
+                self._after_idle()
             elif kind == "line_at_save":
                 self._deliver_and_observe(op[1], "\n", at_save=True)
             elif kind == "raw":
